@@ -856,6 +856,17 @@ func c03Port(c *Ctx, R string) {
 			for _, lp := range naturalLoops(fn) {
 				for _, in := range lp.Header.Instrs {
 					if phi, ok := in.(*ssa.Phi); ok && phi.Comment != "" {
+						// carried means changed by the loop: a variable merely merged at the header (an `if` right before
+						// the loop shares the block) comes back unchanged on every back edge
+						changes := false
+						for i, e := range phi.Edges {
+							if lp.Blocks[lp.Header.Preds[i]] && e != ssa.Value(phi) {
+								changes = true
+							}
+						}
+						if !changes {
+							continue
+						}
 						declared := false
 						for _, z := range c03Counters[name] {
 							if z == phi.Comment {
